@@ -48,8 +48,18 @@ def check_lines(rec, md: dict, lines: list, via_chart: bool, rng=None) -> bool:
             if not out.ok:
                 raise out.exc
             got = observe.observe_metadata(out.chart.metadata)
-        else:
+        elif len(lines) % 2:
             got = observe.observe_metadata(M.Metadata.from_chart_lines(iter(lines)))
+        else:
+            # handed over as a real list and decoded twice: the caller's list must come back untouched, the answer the same
+            mine = list(lines)
+            got = observe.observe_metadata(M.Metadata.from_chart_lines(mine))
+            again = observe.observe_metadata(M.Metadata.from_chart_lines(mine)) if mine == list(lines) else None
+            if mine != list(lines) or again != got:
+                rec.ev()
+                rec.violation("caller-list-consumed", f"Metadata.from_chart_lines(list) changed the caller's list ({len(lines)} -> {len(mine)} lines) "
+                              "or decodes it differently the second time", case, "decode-consumes-or-depends-on-callers-list")
+                return False
     except Exception as e:  # noqa
         rec.ev()
         rec.violation("well-formed-section-rejected", f"[Song] section {lines[:6]}... rejected with {harness.exc_str(e)}", case,
